@@ -17,6 +17,7 @@ package main
 import (
 	"bytes"
 	"fmt"
+	"math"
 	"strings"
 	"time"
 
@@ -160,6 +161,70 @@ func tuplesFamily(name string, operands []string, minArity, maxArity int, budget
 			return fmt.Sprintf("operator %s with %d operands (some tuple) after preamble %s", allOps[b.op], b.arity, psPreamble)
 		},
 		CrashKey:    func(item int) string { return "C01:crash:ps-operator:" + allOps[blocks[item].op] },
+		HangSeconds: 40,
+	}
+}
+
+// boundaryCountFamily: counts, positions and amounts at the edges of the integer
+// range, in the places where the stack and composite-object operators do
+// arithmetic on them (`n j roll` normalises j modulo n, `index` and `copy`
+// subtract from the stack depth, getinterval / putinterval add index and count).
+func boundaryCountFamily(budget time.Duration) mc.Family {
+	var ints []string
+	seen := map[string]bool{}
+	add := func(v int64) {
+		t := fmt.Sprint(v)
+		if !seen[t] {
+			seen[t] = true
+			ints = append(ints, t)
+		}
+	}
+	for _, k := range []uint{0, 1, 2, 3, 7, 8, 15, 16, 31, 32, 62} {
+		for _, d := range []int64{-1, 0, 1} {
+			add(int64(1)<<k + d)
+			add(-(int64(1) << k) + d)
+		}
+	}
+	add(math.MaxInt64)
+	add(math.MinInt64)
+	add(math.MinInt64 + 1)
+	stacks := []string{"11 12 13 14 15 16 17", "(abcdefg) [1 2 3 4 5 6 7]", "[1 2 3 4 5 6 7] (abcdefg)", "mark 1 2 3 {1 2 3 4 5 6 7}"}
+	const small = 9
+	return mc.Family{
+		Name: "small-count-and-boundary-integer-under-every-operator", Items: len(allOps) * len(stacks), Budget: budget,
+		Rule: fmt.Sprintf("every operator (%d) on top of %d stacks (seven integers; a 7-byte string and a 7-element array in both orders; a mark, three integers and a 7-element procedure) followed by a small integer 0..%d and one of %d boundary integers (+-(2^k-1), +-2^k, +-(2^k+1) for k in {0,1,2,3,7,8,15,16,31,32,62}, min/max int) in both orders, and by the boundary integer alone; non-trivial = every case", len(allOps), len(stacks), small-1, len(ints)),
+		Body: func(c *mc.Ctx, item int) mc.Verdict {
+			op := allOps[item%len(allOps)]
+			st := stacks[item/len(allOps)]
+			a := ints[c.Choose(len(ints))]
+			k := c.Choose(2*small + 1)
+			var tail string
+			switch {
+			case k < small:
+				tail = fmt.Sprintf("%d %s", k, a)
+			case k < 2*small:
+				tail = fmt.Sprintf("%s %d", a, k-small)
+			default:
+				tail = a
+			}
+			pre := psPreamble
+			if item%len(allOps) >= len(sysOps) {
+				pre += cidPrologue + "begincmap "
+			}
+			prog := pre + st + " " + tail + " " + op
+			err, intp := runPS(prog)
+			c.Step()
+			if len(intp.Stack) > 70000 {
+				return mc.Fail("C01:ps:operand-stack-unbounded:"+op, prog)
+			}
+			v := mc.Pass(errClass(err), true)
+			if c.Render() {
+				v.Render = st + " " + tail + " " + op + " → " + errClass(err)
+			}
+			return v
+		},
+		Describe:    func(item int) string { return "operator " + allOps[item%len(allOps)] + " on " + stacks[item/len(allOps)] },
+		CrashKey:    func(item int) string { return "C01:crash:ps-operator:" + allOps[item%len(allOps)] },
 		HangSeconds: 40,
 	}
 }
@@ -1169,6 +1234,7 @@ func main() {
 				tuplesFamily("ps-operator-x-operand-tuples", operands, 0, arity, budget),
 				tuplesFamily("ps-operator-x-operand-tuples-reduced-pool", operandsSmall, arity+1, arity+1, budget),
 				seqFamily(2, seqPreambles, budget),
+				boundaryCountFamily(budget),
 			}
 			if tier == "thorough" {
 				fams = append(fams, seqFamily(3, seqPreambles, budget))
